@@ -3,7 +3,7 @@
     ([C06_good_reachable]) and of every slice ([C06_slice_good]), so the theorems apply to slices of slices. *)
 From DynVerif Require Import Base Graph Derived Spec.
 From DynVerif Require Import Api.
-From DynVerif.proofs Require Import CoreInv C01Facts C03Facts QueryFacts SliceFacts DerivedFacts ApiFacts.
+From DynVerif.proofs Require Import CoreInv C01Facts C03Facts QueryFacts SliceFacts DerivedFacts ApiFacts ComposeFacts.
 
 Theorem C06_good_reachable : forall dir cs, Good (run_calls (G0 dir) cs).
 Proof. exact Good_reach. Qed.
@@ -50,6 +50,36 @@ Theorem C06_compose : forall g a b c d H1 H2 H3 u v tau, Good g -> a <= b -> c <
   has_interaction H2 u v (Some tau) = has_interaction H3 u v (Some tau).
 Proof. exact slice_compose. Qed.
 Print Assumptions C06_compose.
+
+(** ... and at the level of snapshot ids, per-snapshot counts, node set and node attributes; when the windows do
+    not meet, the second slice is empty *)
+Theorem C06_compose_ids : forall g a b c d H1 H2 H3, Good g -> a <= b -> c <= d -> Z.max a c <= Z.min b d ->
+  time_slice g a (Some b) = (Some H1, Done) -> time_slice H1 c (Some d) = (Some H2, Done) ->
+  time_slice g (Z.max a c) (Some (Z.min b d)) = (Some H3, Done) ->
+  snapshot_ids H2 = snapshot_ids H3.
+Proof. exact slice_compose_ids. Qed.
+Print Assumptions C06_compose_ids.
+Theorem C06_compose_counts : forall g a b c d H1 H2 H3, Good g -> a <= b -> c <= d -> Z.max a c <= Z.min b d ->
+  time_slice g a (Some b) = (Some H1, Done) -> time_slice H1 c (Some d) = (Some H2, Done) ->
+  time_slice g (Z.max a c) (Some (Z.min b d)) = (Some H3, Done) ->
+  forall t, interactions_per_snapshot H2 t = interactions_per_snapshot H3 t.
+Proof. exact slice_compose_counts. Qed.
+Print Assumptions C06_compose_counts.
+Theorem C06_compose_nodes : forall g a b c d H1 H2 H3, Good g -> a <= b -> c <= d -> Z.max a c <= Z.min b d ->
+  time_slice g a (Some b) = (Some H1, Done) -> time_slice H1 c (Some d) = (Some H2, Done) ->
+  time_slice g (Z.max a c) (Some (Z.min b d)) = (Some H3, Done) ->
+  forall n, (In n (node_ids H2) <-> In n (node_ids H3)) /\ aget Z.eqb n (g_nodes H2) = aget Z.eqb n (g_nodes H3).
+Proof.
+  intros g a b c d H1 H2 H3 Hg Hab Hcd Hm E1 E2 E3 n. split.
+  - exact (slice_compose_nodes g a b c d H1 H2 H3 Hg Hab Hcd Hm E1 E2 E3 n).
+  - exact (slice_compose_attrs g a b c d H1 H2 H3 Hg Hab Hcd Hm E1 E2 E3 n).
+Qed.
+Print Assumptions C06_compose_nodes.
+Theorem C06_compose_disjoint : forall g a b c d H1 H2, Good g -> a <= b -> c <= d -> Z.min b d < Z.max a c ->
+  time_slice g a (Some b) = (Some H1, Done) -> time_slice H1 c (Some d) = (Some H2, Done) ->
+  snapshot_ids H2 = [] /\ (forall u v tau, has_interaction H2 u v (Some tau) = false) /\ node_ids H2 = [].
+Proof. exact slice_compose_disjoint. Qed.
+Print Assumptions C06_compose_disjoint.
 
 (** "G is observably unchanged" is immediate here: time_slice is a function of G.  On the Python side the
     harness re-observes G after every slice (validated, not proved). *)
